@@ -1,5 +1,9 @@
 package check
 
+var httpForwardingBounded = BoundedCheck{ID: "pool.http_forwarding", Pkg: "github.com/codelaboratoryltd/bng/pkg/pool", File: "pool_http_forwarding.go",
+	Bound: "two nodes over loopback HTTP; 12 identifier shapes (plain, MAC, slashes, space, %, ?, #, + and &, //, dot segments, trailing slash, UTF-8), 5 remotely owned subscribers each, two allocate / release rounds",
+	Claim: "every allocation is served by the owner, every release succeeds, and afterwards the owner holds nothing and can hand all its addresses out again"}
+
 func init() {
 	register(&PropDef{
 		ID:    "C17",
@@ -11,6 +15,8 @@ func init() {
 			// "served from exactly one node's pool": the entry points decide once and serve or forward
 			"pool.PeerPool.Allocate", "pool.PeerPool.Release", "pool.PeerPool.getPeerAddr",
 		},
+		// the HTTP layer between peers is a trusted frame for the verifier: bounded stand-in on the real code
+		BoundedChecks: []BoundedCheck{httpForwardingBounded},
 		Undecided: []string{
 			"hashString / hashCombine are trusted to be deterministic functions (ghost hstr, score); nothing about FNV-1a or the Wang mixer is decided",
 			"ties: the contracts REQUIRE that distinct peer names have distinct scores and that scores are non-zero. The mixer is a bijection of keyHash^FNV1a(name), so scores tie exactly when two peer names collide under 64-bit FNV-1a; then rendezvousHash (first maximum, GetOwner/IsLocalOwner) and rendezvousRanked (sort.Slice, unstable; getHealthyOwner/Allocate/Release) name different owners (spec/replays/inspection_C17_score_tie_owner_disagreement.go, real colliding names). With all scores 0 rendezvousHash returns \"\"",
